@@ -151,4 +151,56 @@ def resolveOKB (lib : Lib) : List (String × Bool) → NNet → Bool
            | none => false)
       | none => resolveOKB lib rest cur
     else resolveOKB lib rest cur
+
+/-! ### vocabulary of the general statement `substitute_sem_general` (ignored input pins, no designated cell) -/
+/-- the implementation ignores input port `inn` (the port has no reader): `substitute` removes the host line at its
+    instance pin (`ll.reader = None; ll.remove()`) -/
+def ignoredPort (m : NNet) (inn : Nat) : Bool := (m.net.node inn).outs.length == 0
+
+/-- side conditions on the implementation for `substitute_sem_general`: `implOKB` without the clause "there is a designated
+    cell" — the ports are distinct, no port is a flip-flop/latch, a port that is driven and read inside is a fork -/
+def implGenOKB (m : NNet) : Bool :=
+  match implShape m with
+  | none => false
+  | some _ =>
+    decide m.net.io.Nodup &&
+    m.net.io.all fun p => !(isSeqKind (m.net.node p).kind) &&
+      (!(decide ((m.net.node p).ins.length > 0) && decide ((m.net.node p).outs.length > 0)) || (m.net.node p).isFork)
+
+/-- no connected instance pin that the implementation ignores is driven by the instance itself (the real code would then
+    call `Line.remove()` on a line it still holds in `node_out_lines` and re-connect the removed object) -/
+def noSelfIgnB (h : NNet) (c : Nat) (m : NNet) : Bool :=
+  match implShape m with
+  | none => true
+  | some sh =>
+    (sh.inPorts.zip (padTo (h.net.node c).ins sh.inPorts.length)).all fun p =>
+      match p.2 with
+      | some ll => !(ignoredPort m p.1) || (h.net.line ll).driver != c
+      | none => true
+
+/-- some connected instance pin is ignored by the implementation -/
+def hasIgnoredB (h : NNet) (c : Nat) (m : NNet) : Bool :=
+  match implShape m with
+  | none => false
+  | some sh =>
+    (sh.inPorts.zip (padTo (h.net.node c).ins sh.inPorts.length)).any fun p => p.2.isSome && ignoredPort m p.1
+
+/-- every substitution that `resolve_tlib_cells` performs along the key list satisfies the hypotheses of `substitute_sem_general`: the
+    implementation is well-formed and satisfies `implGenOKB` (with or without designated cell), no ignored connected pin is
+    driven by the cell itself, the substituted node is neither a port nor a fork, and none of them raises (decidable: computed
+    along the loop of `resolveCells`); substitutions may remove lines, the instance and dangling logic -/
+def resolveGenOKB (lib : Lib) : List (String × Bool) → NNet → Bool
+  | [], _ => true
+  | key :: rest, cur =>
+    let i := cur.lookup key
+    if i < cur.net.nodes.size then
+      match lib.find (cur.net.node i).kind with
+      | some impl =>
+        impl.wf && implGenOKB impl && noSelfIgnB cur i impl && !(cur.net.io.contains i) && !((cur.net.node i).isFork) &&
+          (match substitute cur i impl with
+           | some nxt => resolveGenOKB lib rest nxt
+           | none => false)
+      | none => resolveGenOKB lib rest cur
+    else resolveGenOKB lib rest cur
+
 end KV.Transform
